@@ -39,6 +39,8 @@ func (o RemoteOp) String() string {
 		return fmt.Sprintf("%s(n%d,%q)", o.Op, o.Node, o.Ref)
 	case "resolve", "fetchref":
 		return fmt.Sprintf("%s(%q)", o.Op, o.Ref)
+	case "fetchrefdigest":
+		return fmt.Sprintf("fetchrefdigest(%q@n%d)", o.Ref, o.Node)
 	}
 	return fmt.Sprintf("%s(n%d)", o.Op, o.Node)
 }
@@ -161,6 +163,13 @@ func (p *remoteProp) Gen(r *Rand, tier string, idx int) any {
 			}
 		case x < 17:
 			op = RemoteOp{Op: "fetchref", Ref: pick(r, tags)}
+			if r.Chance(0.4) {
+				// digest-form reference (plain digest, or tag@digest)
+				op = RemoteOp{Op: "fetchrefdigest", Node: r.Intn(nn)}
+				if r.Bool() {
+					op.Ref = pick(r, tags)
+				}
+			}
 		case x < 18:
 			op = RemoteOp{Op: "delete", Node: r.Intn(nn)}
 		case x < 19:
@@ -390,6 +399,23 @@ func (p *remoteProp) step(ctx context.Context, rc *RunCtx, rp *RemoteParams, g *
 		err = repo.Tag(ctx, n.Desc, op.Ref)
 	case "pushref":
 		err = repo.PushReference(ctx, n.Desc, bytes.NewReader(n.Data), op.Ref)
+	case "fetchrefdigest":
+		var rc2 io.ReadCloser
+		ref := n.Desc.Digest.String()
+		if op.Ref != "" {
+			ref = op.Ref + "@" + ref
+		}
+		if n.IsManif {
+			gotDesc, rc2, err = repo.FetchReference(ctx, ref)
+		} else {
+			gotDesc, rc2, err = repo.Blobs().(interface {
+				FetchReference(ctx context.Context, reference string) (ocispec.Descriptor, io.ReadCloser, error)
+			}).FetchReference(ctx, n.Desc.Digest.String())
+		}
+		if err == nil {
+			gotBytes, err = content.ReadAll(rc2, gotDesc)
+			rc2.Close()
+		}
 	case "fetchref":
 		var rc2 io.ReadCloser
 		gotDesc, rc2, err = repo.FetchReference(ctx, op.Ref)
@@ -440,13 +466,19 @@ func (p *remoteProp) step(ctx context.Context, rc *RunCtx, rp *RemoteParams, g *
 				// descriptor or body: reads by digest. Acknowledgements of uploads, manifest
 				// PUTs, deletes and mounts return neither and are not judged (the client
 				// verifies some of them, which is fine either way).
-				pinned = byDigest && (rq.Method == "GET" || rq.Method == "HEAD") && (op.Op == "fetch" || op.Op == "readseek" || op.Op == "exists" || op.Op == "resolvedigest")
+				pinned = byDigest && (rq.Method == "GET" || rq.Method == "HEAD") && (op.Op == "fetch" || op.Op == "readseek" || op.Op == "exists" || op.Op == "resolvedigest" || op.Op == "fetchrefdigest")
+				if op.Op == "fetchrefdigest" && rq.Method == "GET" && rp.Profile.NoContentLength {
+					// without a Content-Length the descriptor is taken from a separate HEAD exchange and the
+					// body is verified by the caller: nothing inconsistent is returned
+					pinned = false
+				}
 			case "content-length":
-				pinned = byDigest && rq.Method == "GET" && rq.Status == 200
+				// pinned when the caller named the size: fetches by descriptor
+				pinned = byDigest && rq.Method == "GET" && rq.Status == 200 && op.Op != "fetchrefdigest"
 			case "content-type":
-				pinned = byDigest && rq.Class == "manifest" && rq.Method == "GET" && rq.Status == 200
+				pinned = byDigest && rq.Class == "manifest" && rq.Method == "GET" && rq.Status == 200 && op.Op != "fetchrefdigest"
 			case "truncate-body", "flip-body":
-				pinned = op.Op == "fetch" && byDigest && rq.Method == "GET" && rq.Status == 200 && rq.Ref == n.Desc.Digest.String() && len(n.Data) > 0
+				pinned = (op.Op == "fetch" || op.Op == "fetchrefdigest") && byDigest && rq.Method == "GET" && rq.Status == 200 && rq.Ref == n.Desc.Digest.String() && len(n.Data) > 0
 			}
 		}
 		if pinned && err == nil {
@@ -548,6 +580,23 @@ func (p *remoteProp) step(ctx context.Context, rc *RunCtx, rp *RemoteParams, g *
 		}
 		if op.Op == "fetchref" && !bytes.Equal(gotBytes, m.Data) {
 			return violation("wrong-bytes", "", "step %d %s returned other bytes than the registry holds\n%s", i, op, hist())
+		}
+		*okOps++
+	case "fetchrefdigest":
+		if !present {
+			if err == nil {
+				return violation("fetched-absent-content", "", "step %d %s succeeded although the registry does not hold it\n%s", i, op, hist())
+			}
+			return nil
+		}
+		if err != nil {
+			if rp.Profile.NoContentLength && !rp.Profile.DigestHeader {
+				return nil // documented client requirement (HEAD fallback needs a digest header)
+			}
+			return violation("unexpected-error", "", "step %d %s failed: %v\n%s", i, op, err, hist())
+		}
+		if gotDesc.Digest != n.Desc.Digest || gotDesc.Size != n.Desc.Size || !bytes.Equal(gotBytes, n.Data) {
+			return violation("wrong-answer", "", "step %d %s returned %s %d and %d bytes, expected %s %d\n%s", i, op, gotDesc.Digest, gotDesc.Size, len(gotBytes), n.Desc.Digest, n.Desc.Size, hist())
 		}
 		*okOps++
 	case "resolvedigest":
